@@ -65,6 +65,11 @@ ItemToks(it, k, prefix, subrs) ==
 ExtraSubrs == << <<N(33), N(-21), C("rlineto"), N(12), C("hlineto"), C("return")>>,          \* 4: a path fragment
                  <<N(300), N(10), C("hstem"), C("return")>> >>                               \* 5: replacement hints
 Subrs == StdSubrs \o ExtraSubrs
+\* subroutines of the hostile family: self-calls in tail and non-tail position, a cycle of two
+HostileSubrs == Subrs \o << <<N(6), C("callsubr")>>,                  \* 6: calls itself as its last operation
+                            <<N(7), C("callsubr"), C("return")>>,     \* 7: calls itself, then returns
+                            <<N(9), C("callsubr")>>,                  \* 8 -> 9 -> 8 ...
+                            <<N(8), C("callsubr")>> >>
 
 RECURSIVE Assemble(_, _, _)
 Assemble(prefix, items, k) ==
@@ -89,7 +94,7 @@ Composite(sb, adx, ady) == <<N(sb), N(500), C("hsbw"), N(sb), N(adx), N(ady), N(
 \* ---- hostile charstrings (C01c)
 HostileAlpha == << N(0), N(-1), N(3), N(25), N(2147483647), N(-2147483647 - 1), C("callothersubr"), C("callsubr"), C("pop"),
                    C("div"), C("seac"), C("hsbw"), C("rrcurveto"), C("return"), C("endchar"), C("setcurrentpoint"),
-                   C("hstem3"), C("closepath"), C("rmoveto"), N(1), N(4) >>
+                   C("hstem3"), C("closepath"), C("rmoveto"), N(1), N(4), N(6), N(7), N(8) >>
 NHostile == IF Tier = "quick" THEN 3 ELSE 4
 
 \* ---- font-level values (FontInfo strings and numbers, Private values and their documented
@@ -192,7 +197,7 @@ Ready == (IsGlyphFam /\ ((Family = "glyph" /\ phase = "items" /\ Len(stim.g.item
 
 Vector ==
     IF Family = "hostile" THEN
-        [fam |-> Family, lay |-> DefaultLayout, subrs |-> Subrs,
+        [fam |-> Family, lay |-> DefaultLayout, subrs |-> HostileSubrs,
          glyphs |-> [name |-> <<".notdef", "A">>, toks |-> <<Notdef, stim.hostile>>],
          expect |-> <<>>]
     ELSE IF Family = "fontlevel" THEN
@@ -230,5 +235,5 @@ GlyphOK == (IsGlyphFam /\ Ready) =>
        /\ (stim.g.hs = 3 => r.vst = <<QI(Lsbx - 5), QI(Lsbx + 35), QI(Lsbx + 100), QI(Lsbx + 130)>>)
 \* totality of the machine on malformed charstrings (those whose numbers stay in TLC's range)
 SmallNums == \A j \in 1..Len(stim.hostile) : stim.hostile[j].t = "n" => (stim.hostile[j].v < 100 /\ stim.hostile[j].v > -100)
-Total == (Family = "hostile" /\ Ready /\ SmallNums) => Dec(stim.hostile).st \in {"done", "error", "done-noend"}
+Total == (Family = "hostile" /\ Ready /\ SmallNums) => T1Run(stim.hostile, HostileSubrs).st \in {"done", "error", "done-noend"}
 =============================================================================
